@@ -1,11 +1,20 @@
 (* C01 -- compiled execution follows the documented semantics.
-   What is proved (Proofs/ExprCompile.v): for expressions over literals, scalar variables, unary minus, NOT and all
+   What is proved.
+   (a) Expressions (Proofs/ExprCompile.v): for expressions over literals, scalar variables, unary minus, NOT and all
    binary operators -- any depth -- the code the compiler emits is the postfix form; the VM's own fetch loop runs that
    code like a straight-line interpreter and leaves the program counter behind it; the result on top of the stack
    (or the error) is the one the reference semantics Spec/Sem.v computes for the same variable store, and nothing else
-   in the machine state changes.  Plus the ON dispatch arithmetic.
-   What is NOT proved: the same for statements and control flow (GOTO/GOSUB/FOR/WHILE/IF, symbol resolution in the
-   linker, TRON).  There the deciding work is the differential run of generated programs against Spec/Sem.v. *)
+   in the machine state changes.  Plus the ON dispatch arithmetic and LET to a scalar variable.
+   (b) Control flow (Proofs/Flow.v .. Flow4.v): for whole programs, of any size, made of LET (scalar variable, expression
+   as in (a)), GOTO, ON..GOTO and END, with ascending line numbers and END as the last statement: what the code generator
+   and the linker produce is an explicit layout (line -> address, statement -> address, every branch slot patched to the
+   first instruction of its target line), and the VM's fetch loop, started on that code with tracing off, follows the
+   reference semantics statement by statement: if Spec/Sem.run says the run reaches END with variable store V, the VM stops
+   (EvStopped) with variable store V; if it says error c, the VM reports error c (C01_compiled_program_follows_semantics;
+   the statement-level simulation is C01_statement_simulation).  The parser's own line-number literals meet the premise on
+   branch targets (C01_line_literal_ok, all 65530 of them); Proofs/Flow4.v holds a parsed program that meets every premise.
+   What is NOT proved: the same for GOSUB/RETURN, FOR/NEXT, WHILE/WEND, IF, arrays, function calls, TRON, and the line
+   number attached to an error.  There the deciding work is the differential run of generated programs against Spec/Sem.v. *)
 From BL Require Import Base.Prelude Mach.Val Mach.Func Mach.Var Lang.Token Lang.Ast Mach.Compile Mach.Runtime Spec.Sem Proofs.Slicing Proofs.ExprCompile.
 Local Open Scope N_scope.
 
@@ -159,3 +168,64 @@ Print Assumptions C01_linked_jump.
 Theorem C01_linked_other : forall pls a, ~ In a (map fst (line_refs pls 0)) -> nthN (final_ops pls) a = nthN (prog_ops pls) a.
 Proof. exact final_other. Qed.
 Print Assumptions C01_linked_other.
+
+(* ---- control flow, parts 3 and 4 (Proofs/Flow3.v, Flow4.v): the VM on the linked code follows the reference semantics ---- *)
+From BL Require Import Proofs.Flow2 Proofs.Flow3 Proofs.Flow4.
+
+(* every slot the linker patches holds a placeholder jump, so every other instruction survives linking unchanged *)
+Theorem C01_linking_keeps_code : forall pls a op, good_prog pls -> nthN (prog_ops pls) a = Some op -> op <> OpJump 0 ->
+  nthN (final_ops pls) a = Some op.
+Proof. exact final_keeps. Qed.
+Print Assumptions C01_linking_keeps_code.
+
+(* the parser writes the target n of a branch as the Single f32_of_Z n: the compiler's reading of that literal and the
+   reference reading both give n, for every line number there is *)
+Theorem C01_line_literal_ok : forall n, n <= 65529 ->
+  target_is (Floats.f32_of_Z (Z.of_N n)) n /\ Z.to_N (Floats.f32_to_Z (Floats.f32_of_Z (Z.of_N n))) = n.
+Proof. exact line_literal_ok. Qed.
+Print Assumptions C01_line_literal_ok.
+
+(* one statement: whatever the reference semantics does -- pass control to a continuation, end, fail with error c --
+   the VM, from the related state, does in finitely many instructions and arrives in a related state *)
+Theorem C01_statement_simulation : forall O srcl pls lo sl,
+  Forall2 lmatch srcl pls -> ascending pls lo -> last_is_end (prog_ops pls) = true -> last_nonempty pls ->
+  sl + lenN (prog_ops pls) <= MAX_POOL ->
+  forall sb n sd s sr sa pb pd p pr pa st r,
+  srcl = sb ++ (n, sd ++ s :: sr) :: sa -> pls = pb ++ (n, pd ++ p :: pr) :: pa ->
+  Forall2 lmatch sb pb -> Forall2 gstmt sd pd -> gstmt s p -> Forall2 gstmt sr pr -> Forall2 lmatch sa pa ->
+  r_pc r = lenN (prog_ops pb) + lenN (flat_map pc_ops pd) -> sfacts pls sl st r ->
+  outcome O srcl pls sl (exec O srcl 200 n s (tag_line n sr, n) st) r.
+Proof. exact stmt_step. Qed.
+Print Assumptions C01_statement_simulation.
+
+(* whole runs, any number of steps *)
+Theorem C01_vm_follows_semantics : forall O srcl pls lo sl,
+  Forall2 lmatch srcl pls -> ascending pls lo -> last_is_end (prog_ops pls) = true -> last_nonempty pls ->
+  sl + lenN (prog_ops pls) <= MAX_POOL ->
+  forall fuel k st r, Rel srcl pls sl k st r -> final O (run O srcl fuel k st) r.
+Proof. exact vm_follows_sem. Qed.
+Print Assumptions C01_vm_follows_semantics.
+
+(* from the parsed lines: compile, link, start at the first line with empty variables *)
+Theorem C01_compiled_program_follows_semantics : forall O srcl pls dp lo n ss rest inputs fuel r,
+  Forall2 lmatch srcl pls -> ascending pls lo -> last_is_end (prog_ops pls) = true -> last_nonempty pls ->
+  r_slen r + lenN (prog_ops pls) <= MAX_POOL ->
+  srcl = (n, ss) :: rest ->
+  r_prog r = program_link (compile_asts srcl dp) -> r_pc r = 0 -> r_vars r = vars_empty -> r_tron r = false ->
+  match run O srcl fuel (tag_line n ss, n) (sem_start false inputs) with
+  | (st', HEnd) => exists m r', exec_loop_x O m false r = (r', Ok (Some EvStopped)) /\ r_vars r' = s_vars st'
+  | (st', HError c _) => exists m er, snd (exec_loop_x O m false r) = Err er /\ ecode er = c
+  | _ => True
+  end.
+Proof. exact compiled_program_follows_semantics. Qed.
+Print Assumptions C01_compiled_program_follows_semantics.
+
+(* the premises are met by a program the model's own lexer and parser produce, and on it the conclusion is not the trivial
+   branch: the VM stops at END *)
+Theorem C01_demo_program : map parse_src demo_text = map Some demo_src
+  /\ (Forall2 lmatch demo_src demo_pieces /\ ascending demo_pieces 0 /\ last_is_end (prog_ops demo_pieces) = true
+      /\ last_nonempty demo_pieces /\ 0 + lenN (prog_ops demo_pieces) <= MAX_POOL)
+  /\ (forall O r dp, r_prog r = program_link (compile_asts demo_src dp) -> r_pc r = 0 -> r_vars r = vars_empty ->
+        r_tron r = false -> r_slen r = 0 -> exists m r', exec_loop_x O m false r = (r', Ok (Some EvStopped))).
+Proof. exact (conj demo_is_parsed (conj demo_meets_premises demo_vm_stops)). Qed.
+Print Assumptions C01_demo_program.
